@@ -140,7 +140,7 @@ def produce_launch(spec: Dict[str, Any], tdir: str) -> List[List[Dict[str, Any]]
         for att, fail in ((1, spec.get("fail")), (2, spec.get("fail2"))):
             sub = os.path.join(tdir, f"attempt{att}")
             os.makedirs(sub)
-            ident = ["--run-space-idempotency-key", "retried-key"] if spec["retry"] == "idempotency_key" else ["--run-space-launch-id", "retried-launch"]
+            ident = ["--run-space-idempotency-key", "retried-key"] if spec["retry"] == "idempotency_key" else ["--run-space-launch-id", spec.get("launch_id") or "retried-launch"]
             one = dict(spec, fail=fail, retry=False, cli=ident + ["--run-space-attempt", str(att)])
             out += produce_launch(one, sub)
         return out
@@ -152,7 +152,10 @@ def produce_launch(spec: Dict[str, Any], tdir: str) -> List[List[Dict[str, Any]]
     out = "trace.ser.jsonl" if spec["mode"] == "file" else "traces"
     cfg = clidrv.config_mapping(LAUNCH_PIPES[spec["pipe"] % len(LAUNCH_PIPES)], run_space=rs, trace={"driver": "jsonl", "output_path": out})
     clidrv.write_yaml(os.path.join(tdir, "p.yaml"), cfg)
-    clidrv.run_inprocess(["run", "p.yaml", "-q"] + list(spec.get("cli") or []), tdir)
+    cli_args = list(spec.get("cli") or [])
+    if not cli_args and spec.get("launch_id"):
+        cli_args = ["--run-space-launch-id", spec["launch_id"]]  # an explicit id; any string is allowed
+    clidrv.run_inprocess(["run", "p.yaml", "-q"] + cli_args, tdir)
     if spec["mode"] == "file":
         return [tracelib.read_jsonl(os.path.join(tdir, out))["records"]]
     files = sorted(os.listdir(os.path.join(tdir, out)))
@@ -273,7 +276,8 @@ def c13_case(draw):
         return {"kind": "launch", "runs": draw(st.integers(1, 4)), "fail": draw(st.sampled_from([None, None, 0, 1, 2, 3])),
                 "mode": draw(st.sampled_from(["file", "dir"])), "pipe": draw(st.integers(0, 2)),
                 # a retried launch: the same launch id with attempt 1 and attempt 2, aggregated together
-                "retry": draw(st.sampled_from([False, "launch_id", False, "idempotency_key"])), "fail2": draw(st.sampled_from([None, 0, None, 1]))}
+                "retry": draw(st.sampled_from([False, "launch_id", False, "idempotency_key"])),
+                "launch_id": draw(st.sampled_from([None, "nightly:2026-10-05 eu-west", None, "run/7 #3", "L1"])), "fail2": draw(st.sampled_from([None, 0, None, 1]))}
     c = draw(gen.case(max_nodes=6, rare=True))
     return {"kind": "single", "case": c, "detail": draw(st.sampled_from(["hash", "all"]))}
 
